@@ -41,7 +41,7 @@ case "$name $*" in
     if [ -f "$D/fetched" ] && [ -f "$D/tags_after_fetch" ]; then cat "$D/tags_after_fetch"; else [ -f "$D/tags" ] && cat "$D/tags"; fi;;
   "git tag --list --merged") [ -f "$D/tags_branch" ] && cat "$D/tags_branch";;
   "hg log --branch . --rev=tag() --template={tags}\n") [ -f "$D/tags_branch" ] && cat "$D/tags_branch";;
-  "git status --porcelain") [ -f "$D/status" ] && cat "$D/status";;
+  "git status --porcelain"*) [ -f "$D/status" ] && cat "$D/status";;
   "hg status -umard") [ -f "$D/status" ] && cat "$D/status";;
 esac
 exit 0
